@@ -5,7 +5,7 @@ From NDN Require Import Base.Prelude Base.PyPrim Model.TlvVar Model.Tlv Proofs.B
   Proofs.TlvVarBridge Proofs.TlvSplit Proofs.ShrinkProofs.
 From NDN Require Generated.TlvVarGen.
 Local Open Scope Z_scope.
-Set Default Timeout 60.
+Set Default Timeout 900.
 
 Arguments N.of_nat : simpl never.
 Arguments N.to_nat : simpl never.
